@@ -160,6 +160,7 @@ func specialFamilies() []*scaleFam {
 			{Prog: "BEGIN { match (true) { armed => { armed = false } } if (true) { print \"then\" } else { print \"else\" } n = 0; while (true) { n++; if (n > 2) { break } } print n; for (k = 0; true; k++) { if (k > 1) { break } } print k; print true, false, null, ! true }\n", Want: "then\n3\n2\ntrue false null false\n"},
 			{Prog: "BEGIN { match (false) { f => { f = true } } match (null) { z => { z = 5 } } if (false) { print \"wrong\" } print null, false, null is null, false || false; x = null; print x, [null, false] }\n", Want: "null false true false\nnull [null, false]\n"},
 			{Prog: "{ match (\"id\") { s => { s = s + \"-\" + $ } } match (0) { n => { n += $ } } match (1.5) { q => { q++ } } print \"id\", 0, 1.5, \"id\" + $, 0 + $ }\n", Files: []inFile{{Name: "in.json", Text: "[1, 2, 3]"}}, Want: "id 0 1.5 id1 1\nid 0 1.5 id2 2\nid 0 1.5 id3 3\n"},
+			{Prog: "{ match (\"id\") { s => { print s; s = s + \"-\" + $ } } match (0) { n => { print n; n += $ } } match (null) { z => { print z; z = $ } } match (true) { b => { print b; b = false } } }\nfunction f() { match ('t') { s => { r = s; s = s + 1; return r } } }\nEND { print f(), f(), f() }\n", Files: []inFile{{Name: "in.json", Text: "[1, 2, 3]"}}, Want: "id\n0\nnull\ntrue\nid\n0\nnull\ntrue\nid\n0\nnull\ntrue\nt t t\n"},
 			{Prog: "function tag(v) { match ('t') { s => { s = s + v } } return 't' + v }\nfunction cnt() { match (10) { c => { c++ } } return 10 }\nBEGIN { print tag(1), tag(2), \"t\", 't', cnt(), cnt(), 10 }\n", Want: "t1 t2 t t 10 10 10\n"},
 			{Prog: "{ match (match ($) { [p, q] => 0 }) { first => { first = \"none\" } }\nprint match (7) { 8 => 1 }, match ($) { other => { } }, match ($) { [a] => { } } }\n", Files: []inFile{{Name: "in.json", Text: `[5, [3], "s", 6]`}}, Want: "null null null\nnull null null\nnull null null\nnull null null\n"},
 		}),
